@@ -25,6 +25,9 @@ var FaceTable Table
 type Table struct {
 	faces      sync.Map
 	nextFaceID atomic.Uint64
+	// removal is held (shared) by updates that are only valid while a face exists and
+	// (exclusively) by Remove while it takes the face out of the tables
+	removal sync.RWMutex
 }
 
 func init() {
@@ -79,10 +82,26 @@ func (t *Table) GetAll() []LinkService {
 	return faces
 }
 
+// IfExists runs update if the face with the specified ID is in the face table and reports
+// whether it did. The face is not removed while update runs: a concurrent Remove either
+// completes before the check (update is not run) or cleans up after update has returned,
+// so that no route or nexthop can be added for a face after its clean-up.
+func (t *Table) IfExists(id uint64, update func()) bool {
+	t.removal.RLock()
+	defer t.removal.RUnlock()
+	if t.Get(id) == nil {
+		return false
+	}
+	update()
+	return true
+}
+
 // Remove removes a face from the face table.
 func (t *Table) Remove(id uint64) {
+	t.removal.Lock()
 	t.faces.Delete(id)
 	dispatch.RemoveFace(id)
+	t.removal.Unlock()
 	table.Rib.CleanUpFace(id)
 	core.LogInfo(t, "Unregistered FaceID=", id)
 }
